@@ -115,6 +115,9 @@ class World:
         return h
 
 
+MULTI_CALL = {"dataset", "qst_empi"}
+
+
 def tok_key(tok):
     return json.dumps(tok, sort_keys=True)
 
@@ -155,7 +158,12 @@ def replay_walk(chk, walk, gen_seeds, tokmap, digmap):
                               dict(walk=walk, step=n))
                 return
         if out is not None:
-            tk = tok_key(tr["out"])
+            tok = dict(tr["out"])
+            if arg["ep"] in MULTI_CALL and act == "CallInt":
+                # these entry points make several library calls: with an integer seed every call restarts the
+                # seed's stream, with a generator the calls continue one stream - different arguments, different token
+                tok["int_seed_per_call"] = True
+            tk = tok_key(tok)
             dg = digest(out)
             if tk in tokmap and tokmap[tk] != dg:
                 kind = "seeded" if act == "CallInt" else ("generator" if act == "CallGen" else "global")
@@ -187,7 +195,12 @@ def _proper_prefix(a, b):
         return False
     if len(ua) > len(ub):
         ua, ub = ub, ua
-    return ub[:len(ua)] == ua
+    # Rejection samplers (numpy's BTPE binomial) can re-synchronise: a call that starts a few words later may
+    # accept the very candidate the earlier start reached after some rejections and return identical data
+    # (seen: multinomials from MT19937(0) positions 232 and 244).  "Successive draws differ" is therefore only
+    # demanded when a call of the SAME entry point lies between the two positions: the later call then starts
+    # behind all the words the earlier one consumed.
+    return ub[:len(ua)] == ua and a["ep"] in ub[len(ua):]
 
 
 def check_output_validity(chk, ep, out):
